@@ -20,7 +20,7 @@ NA = {
 }
 
 PENDING = {k: 'applicable to this technique (see DESIGN.md section 3) but its check is not built yet in this revision; not claimed until it is quiet and sensitive'
-           for k in ('C04', 'C08', 'C10', 'C11', 'C12', 'C19')}
+           for k in ('C04', 'C10', 'C12', 'C19')}
 
 CHECKS = {
  'C05': dict(
@@ -49,6 +49,27 @@ CHECKS = {
     note='Trusts: the library encoder as the source of valid encodings (the property quantifies over its output); one-shot decode(e) as '
          'the reference value. Open known findings F2 (stray end-of-octets after a definite explicit tag, test-pinned) and F6 are classified narrowly.',
     technique='deterministic simulation: seeded schedule/fault injection on the stream seam with position accounting from construction; byte-exact remainder oracle'),
+ 'C08': dict(
+    engine='stream-world', category='exploration', design_ref='DESIGN.md section 3 (C08)',
+    text='Seeded stored-byte corruption (bit flip, structural octet, insert, delete, TLV duplication, length and identifier rewrite, '
+         'truncation; 1-3 faults) of valid encodings and seeded structural-octet strings, through {BER,CER,DER} x {one-shot, streaming under a '
+         'seeded arrival schedule with drain} x {own, neighbouring, no guiding type}; plus the exhaustive sweep of all strings of length <= 3 '
+         'over 14 structural octets. Oracle: value object + bytes remainder, or a PyAsn1Error; deterministic termination bound on stream reads '
+         'and on control-flow events (sys.monitoring), so a hang is a replayable verdict.',
+    note='Trusts: the depth bound is applied with an upper-bound estimate from the framing scanner; the step budget constants (x20 head-room '
+         'over measured valid inputs). Exhaustive only for |b| <= 3 over the reduced alphabet; otherwise sampled.',
+    technique='deterministic simulation: seeded stored-byte corruption faults plus arrival schedules, absolute oracle on outcome class, deterministic step budget'),
+ 'C11': dict(
+    engine='stream-world', category='exploration', design_ref='DESIGN.md section 3 (C11)',
+    text='Part A: the same bytes (valid streams, corrupted ones, wide/deep/over-threshold containers from an independent TLV writer) through 10 '
+         'substrate kinds (BytesIO, OctetString, Any, OS file, gzip, zip member, BufferedReader over a raw pipe, non-seekable double raw and '
+         'pre-wrapped, seekable double) with the wrapper drop threshold as a per-run knob (4/16/64/8192 and the shipped value with >8 KiB '
+         'elements); outcome must equal the outcome on bytes. Part B: seeded operation histories (read/peek/seek-back/set-mark/tell with short '
+         'and would-block raw reads) on the real CachingStreamWrapper against a reference model, checked after every operation.',
+    note='Trusts: outcome on bytes as the reference; wrapper positions are compared modulo the renumbering at mark points pinned by upstream '
+         'testMarkedPositionResets (that renumbering is what breaks the decoder on non-seekable streams: open known finding F6, classified narrowly). '
+         'MemoryError on absurd lengths is not compared (machine-dependent).',
+    technique='deterministic simulation: substrate-kind differential with a buffer-size knob; operation-history refinement of the seek-back wrapper against an executable model'),
 }
 
 
